@@ -92,6 +92,7 @@ type wireRun struct {
 	ll     map[string]net.IP // link-local address of ve0 / vf0
 	xid    uint32
 	sent   map[uint32]bool // transaction ids of datagrams sent so far
+	altPort uint16         // the variant server's own port (its UDP replies come from there)
 }
 
 // exchange injects one frame on link (ve1|vf1) and returns the DHCP frames seen on both links.
@@ -149,7 +150,7 @@ func (w *wireRun) exchangeRaw(link string, frame []byte, wait time.Duration) []w
 		fr := w.sn.collect(0)
 		for _, f := range fr {
 			b, _ := hex.DecodeString(f.Hex)
-			if p, err := pkt.ParseFrame(b); err == nil && p.IsIPv4UDP && p.SrcPort == 67 {
+			if p, err := pkt.ParseFrame(b); err == nil && p.IsIPv4UDP && (p.SrcPort == 67 || (w.altPort != 0 && p.SrcPort == w.altPort)) {
 				out = append(out, wireObs{link: f.If, f4: p})
 			}
 			if p6, ok := pkt.ParseFrame6(b); ok && p6.IsUDP && p6.SrcPort == 547 {
@@ -636,9 +637,10 @@ server6:
 		}
 		ctx.Nontrivial("C03", fmt.Sprintf("wire/%d/%v", c.Seed, c.Bound))
 	}
+	w.variants(dir)
 	ctx.Count("wire.exchanges", int64(nexch))
 	ctx.Count("wire.servers", 1)
-	for _, pr := range []string{"C01", "C02", "C11", "C12", "C13", "C15", "C16"} {
+	for _, pr := range []string{"C01", "C02", "C11", "C12", "C13", "C15", "C16", "C17"} {
 		ctx.Eval(pr, int64(nexch))
 		ctx.Nontrivial(pr, fmt.Sprintf("wire/%d/%v", c.Seed, c.Bound))
 		if ctx.WantSample(pr) {
